@@ -1,6 +1,7 @@
 /- Model/C17Gen.lean — the C17 models instantiated with the facts the translator extracted. -/
 import PsutilModel.Model.C17
 import PsutilModel.Model.C17Ext
+import PsutilModel.Model.C17Py
 import PsutilModel.Generated.C17
 namespace Psutil.C17
 
@@ -90,6 +91,45 @@ def ycfg : YCfg :=
     fieldBits := Gen.C17.sysinfoFieldBits }
 
 def gcfg : GCfg := { resetBefore := Gen.C17.getprioResetBefore, testMinusOne := Gen.C17.getprioTestMinusOne }
+
+/-! ### round 2 -/
+
+def ushape : UShape :=
+  { slotExprs := Gen.C17.usersSlotExprs
+    fieldUses := Gen.C17.usersFieldUses
+    mentions := Gen.C17.usersMentions
+    charLocals := Gen.C17.usersCharLocals }
+
+/-- the users() configuration whose decode flags are read off the source shape -/
+def ucfgS : UCfg := ucfg.withShape ushape
+
+def fcfg : FCfg :=
+  { partSkip := Gen.C17.rootPartSkip
+    partMinFields := Gen.C17.rootPartMinFields
+    partMajorIdx := Gen.C17.rootPartMajorIdx
+    partMinorIdx := Gen.C17.rootPartMinorIdx
+    partNameIdx := Gen.C17.rootPartNameIdx
+    devPrefixes := Gen.C17.rootDevPrefixes
+    ueventKeys := Gen.C17.rootUeventKeys
+    order := Gen.C17.rootFindOrder
+    existsCheck := Gen.C17.rootExistsCheck
+    needleOrder := Gen.C17.rootNeedleOrder }
+
+def tcfg : TCfg :=
+  { ethTolerated := Gen.C17.nisEthTolerated
+    duplexUnknownC := Gen.C17.nisDuplexUnknownC
+    duplexMap := Gen.C17.nisDuplexMap
+    skipErrno := Gen.C17.nisSkipErrno
+    callOrder := Gen.C17.nisCallOrder
+    flagSep := Gen.C17.nisFlagSep
+    isupFlag := Gen.C17.isupFlag }
+
+def wcfg : WCfg :=
+  { afLink := Gen.C17.nifaAfLink
+    sep := Gen.C17.nifaSep
+    minSeps := Gen.C17.nifaMinSeps
+    padText := Gen.C17.nifaPadText
+    sortKeyIdx := Gen.C17.nifaSortKeyIdx }
 
 /-- the C table restricted to the macros the platform header defines, with their bits -/
 def iffLinux : List (Nat × String) :=
